@@ -70,7 +70,7 @@ def registry():
     return out, ""
 
 
-def native_search(h, seed, timeout=900, known=(), pid=None):
+def native_search(h, seed, timeout=1800, known=(), pid=None, samples=400000):
     """Bounded-exhaustive enumeration of the harness's argument domains in both build profiles."""
     res = dict(harness=h["name"], engine="native bounded-exhaustive enumeration", bound=h["bound"], searched=0, profiles=[], found=None, samples=[], wall_s=0.0)
     t0 = time.time()
@@ -80,7 +80,7 @@ def native_search(h, seed, timeout=900, known=(), pid=None):
             res["error"] = "build failed: " + log[-600:]
             return res
         try:
-            p = subprocess.run([path, "search", h["name"], str(seed)], capture_output=True, text=True, timeout=timeout, env=dict(ENV, VK_KNOWN="|".join(known), VK_IGNORE="|".join(marker_filters(pid)[0]) if pid else "", VK_ONLY="|".join(marker_filters(pid)[1]) if pid else ""))
+            p = subprocess.run([path, "search", h["name"], str(seed)], capture_output=True, text=True, timeout=timeout, env=dict(ENV, VK_SAMPLES=str(samples), VK_KNOWN="|".join(known), VK_IGNORE="|".join(marker_filters(pid)[0]) if pid else "", VK_ONLY="|".join(marker_filters(pid)[1]) if pid else ""))
         except subprocess.TimeoutExpired:
             res["error"] = f"{profile}: search timeout"
             return res
@@ -184,7 +184,7 @@ def run(pid, cfg, tier, seed, repo):
     evaluations = distinct = 0
     # native bounded-exhaustive enumeration: every harness, both profiles
     for h in mine:
-        r = native_search(h, seed, pid=pid, known=[k[len(f"bounded.{h['name']}#"):] for k in cfg.get("_known_keys", []) if k.startswith(f"bounded.{h['name']}#")])
+        r = native_search(h, seed, pid=pid, samples=3000000 if tier == "thorough" else 400000, known=[k[len(f"bounded.{h['name']}#"):] for k in cfg.get("_known_keys", []) if k.startswith(f"bounded.{h['name']}#")])
         report["harnesses"].append(r)
         evaluations += r["searched"]
         distinct += r["searched"]
